@@ -77,6 +77,7 @@ func (e *Exec) runPath(pkg *ssa.Package, fn *ssa.Function, prefix []Decision) (r
 	e.observed = nil
 	e.model = nil
 	e.allowPanic = false
+	e.allowDeadlock = false
 	e.codecLog = nil
 	e.fsTrace = nil
 	e.fsSeq = 0
@@ -103,6 +104,11 @@ func (e *Exec) runPath(pkg *ssa.Package, fn *ssa.Function, prefix []Decision) (r
 		case pathEnd:
 			res.Outcome = r.kind
 			res.Reason = r.reason
+			if r.kind == "deadlock" && !e.allowDeadlock {
+				// every goroutine blocked for good: a lost wake-up / missing
+				// completion is a violation of the implicit progress obligation
+				e.checkFail(e.tt.True, "deadlock", "deadlock", r.reason, "")
+			}
 		case crashEnd:
 			res.Outcome = "panicked"
 			res.Reason = fmt.Sprintf("goroutine g%d: %s at %s", r.g, e.panicString(r.tp.v), r.tp.site)
@@ -297,7 +303,7 @@ func runHarness(ld *Loaded, cfg Config, pkg *ssa.Package, fn *ssa.Function, work
 					if hr.EngineError == "" {
 						hr.EngineError = res.Reason + " [prefix " + decString(it.prefix) + "]"
 					}
-				case "deadlock", "fatal", "exit":
+				case "fatal", "exit":
 					uniq(&hr.Truncated, res.Outcome+": "+res.Reason)
 				}
 				if len(hr.Samples) < 6 && (res.Outcome == "returned" || res.Outcome == "panicked") && (hr.Paths%7 == 1 || len(hr.Samples) < 2) {
